@@ -19,6 +19,7 @@ def load_corpus():
 def family_of(cls):
     """the command class a known finding is keyed by: operator+kind, or the simple command itself"""
     cls = cls[4:] if cls.startswith("seq:") else cls
+    cls = cls[3:] if cls.startswith("ml:") else cls
     m = re.match(r"([^+:]+\+(?:motion|textobj))", cls)
     return m.group(1) if m else cls
 
@@ -53,7 +54,9 @@ def run(tier, seed, replay=None):
     if tier == "quick":
         rr = random.Random(seed)
         pick = set(rr.sample(range(len(corpus)), 12000))
-        cases = [c for k, c in enumerate(corpus) if k in pick or len(c["text"]) > 12]
+        ml = [k for k, c in enumerate(corpus) if c["cls"].startswith("ml:")]
+        pick |= set(rr.sample(ml, min(8000, len(ml))))
+        cases = [c for k, c in enumerate(corpus) if k in pick or (len(c["text"]) > 12 and not c["cls"].startswith("ml:"))]
     else:
         cases = corpus
     if replay:
@@ -123,7 +126,7 @@ def run(tier, seed, replay=None):
         except Exception as ex:      # no usable Vim: the committed recording stands
             R.count("vim_rerecord_failed")
     close_servers()
-    return R.finish(proof, rule="the committed recording of Vim 9.0 (-u NONE -N) on: every buffer over {a b space . newline} up to 3 characters (newline-terminated) x every normal-mode cursor x %d commands (motions with counts 1-3, d c y g~ gu gU g? with every motion and text object, x X r ~ J p P D C Y dd yy cc S s with counts, i a I A o O sessions with and without count, dot repeats, v/V selections with an operator, yank-put pairs) plus 7 realistic records and 3 fixed-width grids for remembered-column sequences (vertical motion, edit, vertical motion, edit) (log, CSV, code, multi-byte, prose, indented config, nested brackets) with 1-3 command sequences at random cursors; vicut is run on the same text, cursor and keys through the key loop and compared on text and cursor. quick = a 12 000-case sample plus all cases on the longer texts; thorough = all 214 934 (incl. the family added later: a counted command repeated by a counted dot, `2x3.`, on six longer texts at every cursor). Deviations recorded at the baseline are keyed by corpus id (corpus/c02_baseline.json) and reported as one known finding; any other deviating case is a violation. VimSpec (Lean) is compared with Vim on every single-line case of its fragment, and a 600-case sample is re-recorded with /usr/bin/vim when present" % 641,
+    return R.finish(proof, rule="the committed recording of Vim 9.0 (-u NONE -N) on: every buffer over {a b space . newline} up to 3 characters (newline-terminated) x every normal-mode cursor x %d commands (motions with counts 1-3, d c y g~ gu gU g? with every motion and text object, x X r ~ J p P D C Y dd yy cc S s with counts, i a I A o O sessions with and without count, dot repeats, v/V selections with an operator, yank-put pairs) plus 7 realistic records and 3 fixed-width grids for remembered-column sequences (vertical motion, edit, vertical motion, edit) (log, CSV, code, multi-byte, prose, indented config, nested brackets) with 1-3 command sequences at random cursors; vicut is run on the same text, cursor and keys through the key loop and compared on text and cursor. quick = a 12 000-case sample plus all cases on the longer texts; thorough = all 274 547 (incl. the families added later: a counted command repeated by a counted dot, `2x3.`, on six longer texts at every cursor; every command of the list at every cursor of three multi-line texts, of which the quick tier takes a sample of 8 000). Deviations recorded at the baseline are keyed by corpus id (corpus/c02_baseline.json) and reported as one known finding; any other deviating case is a violation. VimSpec (Lean) is compared with Vim on every single-line case of its fragment, and a 600-case sample is re-recorded with /usr/bin/vim when present" % 641,
                     level="partial",
                     assumptions=["the oracle is the recorded behaviour of Vim 9.0.1378 with default options; the recording, not a theorem, decides all commands outside the VimSpec fragment",
                                  "registers after the command are not compared (C08 covers what goes into registers)"])
